@@ -18,9 +18,12 @@ _KERNEL = ("kernel semantics are inputs of the model: every write/writev/sendfil
            "EINTR, fatal error) is scripted, an exhausted script means EAGAIN, a zero-length request returns 0 without needing room; "
            "epoll: MOD before ADD fails with ENOENT, ONESHOT disarms the descriptor when an event is reported until the next "
            "successful MOD, ET reports writability again after a short write or EAGAIN")
-_ATOMIC = ("one model step = one section of the Go code under the connection mutex (Write, Writev, Sendfile, flush, the registration "
-           "in addConn) or one unlocked poller statement (ResetPollerEvent, closeWithError after an error event); close = flag flip + teardown "
-           "in one step (nothing else touches the write list once the flag is set)")
+_ATOMIC = ("one model step = one section of the Go code under the connection mutex: Write, Writev, Sendfile, flush (evTake: delivery + "
+           "ONESHOT disarm + flush are one step), the registration in addConn / addDialer, each of the poller's three tail actions "
+           "(connected tail c.resetRead(), ResetPollerEvent, closeWithError after an error event: ops evConnEnd / evRearm / evErrClose), "
+           "SetWriteDeadline, the timer's close; a close is two steps: the flag flip under the mutex (flipClosed) and the teardown "
+           "(teardown) that may come later, other ops may run in between (they find closed = true); that each of these is one locked "
+           "region is checked by the critical-section predicates (cs_*), not proved")
 
 # --------------------------------------------------------------------------- critical-section predicates
 # Coarse structural checks over the scratch copy of the source: that what the model treats as one step
@@ -181,10 +184,18 @@ PROPS = {
     "C01": {
         "manifest": {
             "text": "Lean theorems on the ConnFull model of Write/Writev/Sendfile/flush (all op sequences, all kernel answer sequences): "
-                    "wire ++ pending = accepted while open, wire is a prefix of accepted after close, return-value theorems; tied to the "
-                    "code by differential execution of the real Conn and poller loop on a scripted kernel, with a wire-vs-reported-ranges "
-                    "oracle on the implementation alone",
-            "note": "model fidelity is sampled on every run (simulated kernel: vsys shim); real sockets are not part of this check",
+                    "wire ++ pending = accepted while open, wire is a prefix of accepted after close, return-value theorems, accepted = the "
+                    "ranges the calls reported (c01_accepted_is_reported), Sendfile under a failing dup(2) (c01_sendfile_nodup); tied to the "
+                    "code by differential execution of the real Conn and poller loop on a scripted kernel (fields incl. queue shape, hash of the "
+                    "queued bytes, hash of the reported ranges), with a wire-vs-reported-ranges oracle on the implementation alone and an "
+                    "oracle-only real-socket tier",
+            "note": "model fidelity is sampled on every run (simulated kernel: vsys shim). Non-interleaving of concurrent callers is not a "
+                    "differential result: it rests on the critical-section predicates (each call is one locked region) and the real-socket "
+                    "oracle c01-real-stream; the real tier compares no model field. accepted = reported is proved for well-formed sendfile(2) "
+                    "answers only (OpsWF); c01_reported_needs_wf shows the divergence otherwise. After a fatal Sendfile the wire may hold a "
+                    "prefix of the failing call's range although the call reported 0 (c01_error_sendfile; harness: tolerate); there is no "
+                    "theorem 'wire is a prefix of reported ++ prefix of the failing call'. Transport differences are covered by sampling (typ=, "
+                    "which the model ignores) and the oracle-only real tier",
             "technique": _TECH},
         "lean": ["NbioVerif.Properties.C01", "NbioVerif.Properties.ConnTimer", "NbioVerif.Properties.ConnClose", srcgen.BRIDGE_CONN], "drivers": ["conndrv"], "harness": ["hconn"],
         "runs": [_run_with_real(["n", "err", "ow", "cb", "rc", "deliv", "closed", "wire", "wl", "left", "pend", "acc", "onclose", "wtimer"])],
@@ -205,10 +216,25 @@ PROPS = {
     "C04": {
         "manifest": {
             "text": "Lean theorems on the same model: whenever the connection is open and its queue non-empty, EPOLLOUT is armed in the kernel or "
-                    "the step that arms it is pending (registration, ResetPollerEvent); a delivered EPOLLOUT with kernel room strictly reduces the "
-                    "backlog; flush terminates; differential correspondence incl. epoll_ctl log and injected events through the real "
-                    "readWriteLoop, with quiescent-unarmed / progress / hang oracles on the implementation alone",
-            "note": "liveness in safety form (armed invariant + decreasing measure) under the assumption that an armed writable fd is eventually reported",
+                    "the step that arms it is pending (registration, ResetPollerEvent, the error close); under EPOLLET a writability report is owed "
+                    "whenever a registered open conn has a backlog (ghost edgeDue, c04_et_edge); a delivered EPOLLOUT with kernel room strictly "
+                    "reduces the backlog (also behind leading EINTRs, c04_progress_eintr); flush terminates; from a quiet state `backlog` rounds of "
+                    "report + flush drain the queue in all three modes (c04_drains); differential correspondence incl. epoll_ctl log, the edge "
+                    "ghost and injected events through the real readWriteLoop, with quiescent-unarmed / progress / lost-edge / hang oracles on "
+                    "the implementation alone",
+            "note": "liveness in safety form (armed invariant + ET edge invariant + decreasing measure + composed drain rounds) under the fairness "
+                    "assumption that an armed writable fd is eventually reported; in ET the kernel is assumed to report writability after every "
+                    "refused or short write (ghost edgeDue), and c04_drains composes the rounds under that; c04_drains starts from a Quiet state "
+                    "(registered, no event tail pending); a registered open reachable state becomes Quiet by the poller's tail alone "
+                    "(c04_quiet_after_tail, composed in c04_drains_from_open; an unregistered one is registered first: c04_register_arms). Calls "
+                    "between the poller's tail actions are covered by the theorems over arbitrary op sequences and the critical-section "
+                    "predicates; the differential runs the merged evEnd only (= the three ops in a row, c04_tail_is_three_steps), except for "
+                    "race= ops where the driver runs evConnEnd, evRearm, the racing call, evErrClose (no error event pending there). Only the "
+                    "default read path is modelled (g.onRead == nil, AsyncReadInPoller off). ET edge and drain theorems assume no call precedes "
+                    "the connected callback of a DialAsync conn (c04_et_edge_counterexample_early). flush on an empty queue calls resetRead as in "
+                    "the code, a no-op in every reachable model state (c04_flush_empty_noop): a dial that connected at once (registered "
+                    "read+write, no callback pending, the case of repo fix 42b91d9) is not a state of this model nor of the hconn harness "
+                    "(its spin is C02's oracle c02-spin)",
             "technique": _TECH},
         "lean": ["NbioVerif.Properties.C04", srcgen.BRIDGE_CONN], "drivers": ["conndrv"], "harness": ["hconn"],
         "runs": [_run_with_real(["deliv", "closed", "wl", "wadded", "reg", "kout", "dis", "edge", "ctl", "onclose"])],
@@ -218,7 +244,8 @@ PROPS = {
                 "and between events; EPOLLOUT-only events whose flush ends in EAGAIN); non-trivial iff a backlog existed at some observation",
         "assumptions": [_KERNEL, _ATOMIC,
                         "answer scripts are finite and an exhausted script means EAGAIN: a kernel answering (0, nil) or EINTR for ever "
-                        "(where Go's writeFile / writeBuffer / the flush loop would spin under the mutex) is excluded",
+                        "(where Go's writeFile / writeBuffer / the flush loop, the `for errors.Is(err, syscall.EINTR)` retry loops of the "
+                        "direct write in write / writev and the `continue` of Sendfile's loop would spin under the mutex) is excluded",
                         "the default read path of the poller is modelled (g.onRead == nil, AsyncReadInPoller off): a custom OnRead "
                         "handler must call ResetPollerEvent itself in ONESHOT mode, and the async read path re-arms from its task "
                         "goroutine (same ResetPollerEvent, now under the connection mutex)",
@@ -229,13 +256,16 @@ PROPS = {
             "text": "Lean theorems on the same model: left = unsent bytes held in queued buffers, left <= MaxWriteBufferSize, a call that fits is "
                     "accepted in full, a call that does not fit fails with ErrOverflow and closes, an empty queue means left = 0; differential "
                     "correspondence on the counter and queue shape plus bound/accounting oracles on the implementation alone",
-            "note": "queued file ranges (Sendfile) are not held bytes and are not counted, as in the code",
+            "note": "queued file ranges (Sendfile) are not held bytes and are not counted, as in the code. Writev is assumed to pass <= IOV_MAX "
+                    "non-empty slices. Sendfile's acceptance (c17_fits_accepted_sendfile) assumes dup(2) succeeds and no fatal kernel answer "
+                    "(with a failing dup the call fails although it fits: c01_sendfile_nodup; the oracle c17-fits exempts EMFILE)",
             "technique": _TECH},
         "lean": ["NbioVerif.Properties.C17"], "drivers": ["conndrv"], "harness": ["hconn"],
         "runs": [_run(["n", "err", "ow", "cb", "rc", "closed", "left", "wl"])],
         "oracles": ["c17-"], "cs": _CS,
         "rule": "same stream as C01 with bounds drawn around the running totals (left + n = bound - 1, bound, bound + 1) and fill/drain cycles; "
                 "non-trivial iff a backlog existed at some observation or a call returned an error",
-        "assumptions": [_KERNEL, _ATOMIC, _IOV],
+        "assumptions": [_KERNEL, _ATOMIC, _IOV,
+                        "'fits => accepted' for Sendfile: dup(2) succeeds and no kernel answer is fatal"],
     },
 }
